@@ -13,7 +13,7 @@ theorem emitMove_ok (p : Params) (hy : Hyp p) (e : Emit) (M : State) (hw : WF p 
           (∀ j, (e'.ctx.var j).cur.isReg = (e.ctx.var j).cur.isReg) := by
   have hv := hw.var i hi hreg
   generalize hvdef : e.ctx.var i = v at hv hnd hfree hsw hreg
-  obtain ⟨tok, hget, htv, hform', hdn, _⟩ := hv.tok
+  obtain ⟨tok, hget, htv, hform', hdn⟩ := hv.tok
   have hform := hform' hnd
   have hg : groupOf v.cur.regType = groupOf v.out.regType := hv.grp
   -- the selected instruction
@@ -26,10 +26,11 @@ theorem emitMove_ok (p : Params) (hy : Hyp p) (e : Emit) (M : State) (hw : WF p 
     have hshape : ∃ rd rs k c w, ins.ops = [.reg rd outId, .reg rs v.cur.regId] ∧ groupOf rd = groupOf v.out.regType ∧
         groupOf rs = groupOf v.out.regType ∧ (ins.name == Mn.xchg) = false ∧
         effect ins.name rd (regBytes rs) = some (k, c, w) ∧ (moveTok p.vis tok k c w).dv = true := by
-      rcases hform with ⟨ht, hrt, htok⟩ | ⟨ht, hrt, hdv⟩
-      · have := hy.first i outId v.cur.regId hi ho hv.curLt
-        rw [← hv.out, ← ht, ← hrt, ← htok] at this
-        obtain ⟨rd, rs, k, c, w, h1, h2, h3, h4, h5, h6⟩ := moveOkAt_elim this hmv
+      rcases hform with ⟨ht, hrt, hsv, hdv0⟩ | ⟨ht, hrt, hdv⟩
+      · have h0 := hy.first i outId v.cur.regId hi ho hv.curLt
+        rw [← hv.out, ← ht, ← hrt] at h0
+        have htok := moveOkAt_of_form tok h0 htv hsv hdv0
+        obtain ⟨rd, rs, k, c, w, h1, h2, h3, h4, h5, h6⟩ := moveOkAt_elim htok hmv
         exact ⟨rd, rs, k, c, w, h1, h2, by rw [h3, hg], h4, h5, h6⟩
       · have := hy.again i outId v.cur.regId tok.sv hi ho hv.curLt
         rw [← hv.out] at this
@@ -118,29 +119,23 @@ theorem emitMove_ok (p : Params) (hy : Hyp p) (e : Emit) (M : State) (hw : WF p 
       by_cases hji : j = i
       · subst hji
         rw [hvar'i, ← hvar'def]
-        refine ⟨hv.out, rfl, rfl, hv.outReg, hv.outInit, rfl, hv.grpLt, ho, hv.outLt, ?_, ?_, ?_⟩
+        refine ⟨hv.out, rfl, rfl, hv.outReg, hv.outInit, rfl, hv.grpLt, ho, hv.outLt, ?_, ?_⟩
         · show physAt _ (groupOf v.out.regType) outId = some j
           rw [hphys']
           by_cases hc : v.cur.regId = outId
           · simp [hc, g]; rw [← hc]; exact hvphys
           · simp [hc, g]
-        · refine ⟨tok', ?_, ?_, fun _ => Or.inr ⟨rfl, rfl, hdv⟩, ?_, ?_⟩
+        · refine ⟨tok', ?_, ?_, fun _ => Or.inr ⟨rfl, rfl, hdv⟩, ?_⟩
           · show M'.get (Loc.reg (groupOf v.out.regType) outId) = some tok'
             exact get_set_self _ _ _
           · show (moveTok p.vis tok k c w).var = j
             rw [moveTok_var]; exact htv
           · intro hd
             exact ⟨by simpa [FuncValue.reg] using hd, hdv⟩
-          · intro hd hs
-            have := hsw hs
-            simp [this] at hd
-        · intro hd hs
-          have := hsw hs
-          simp [this] at hd
       · rw [hvar'j j hji] at hrj'
         have hvj := hw.var j hj hrj'
         rw [hvar'j j hji]
-        refine ⟨hvj.out, hvj.curReg, hvj.notStk, hvj.outReg, hvj.outInit, hvj.grp, hvj.grpLt, hvj.curLt, hvj.outLt, ?_, ?_, hvj.fresh⟩
+        refine ⟨hvj.out, hvj.curReg, hvj.notStk, hvj.outReg, hvj.outInit, hvj.grp, hvj.grpLt, hvj.curLt, hvj.outLt, ?_, ?_⟩
         · rw [hphys']
           by_cases hgj : groupOf (e.ctx.var j).cur.regType = g
           · obtain ⟨h1, h2⟩ := hother j hj hji hrj' hgj
@@ -148,8 +143,8 @@ theorem emitMove_ok (p : Params) (hy : Hyp p) (e : Emit) (M : State) (hw : WF p 
             rw [hgj] at this ⊢
             simp [h1, h2, this]
           · simp [hgj]; exact hvj.phys
-        · obtain ⟨tj, hgetj, r1, r2, r3, r4⟩ := hvj.tok
-          refine ⟨tj, ?_, r1, r2, r3, r4⟩
+        · obtain ⟨tj, hgetj, r1, r2, r3⟩ := hvj.tok
+          refine ⟨tj, ?_, r1, r2, r3⟩
           rw [← hgetj]
           apply get_set_ne
           intro heq
